@@ -54,6 +54,23 @@ def run_for(prop, repo, tier):
     kv = subprocess.run(["cargo", "kani", "--version"], stdout=subprocess.PIPE, text=True).stdout.strip()
     if not missing:
         return select(dict(results=results, wall_s=0.0, cache_hit=True, kani_version=kv), hs)
+    # one Kani build at a time across concurrently running checks; whoever waited finds the results in the cache afterwards
+    import fcntl
+    lk = open(os.path.join(CACHE, "kani.lock"), "w")
+    fcntl.flock(lk, fcntl.LOCK_EX)
+    still = []
+    for nm in missing:
+        if os.path.exists(cpath[nm]):
+            try:
+                results[nm] = json.load(open(cpath[nm]))
+                continue
+            except Exception:
+                pass
+        still.append(nm)
+    missing = still
+    if not missing:
+        fcntl.flock(lk, fcntl.LOCK_UN)
+        return select(dict(results=results, wall_s=0.0, cache_hit=True, kani_version=kv), hs)
     tmp = tempfile.mkdtemp(prefix="seqio_kani_")
     t0 = time.time()
     try:
@@ -95,11 +112,18 @@ def run_for(prop, repo, tier):
             if m:
                 results[name]["time_s"] = float(m.group(1))
             if ok or failed:
-                json.dump(results[name], open(cpath[name], "w"))
+                tmpf = "%s.%d.tmp" % (cpath[name], os.getpid())
+                json.dump(results[name], open(tmpf, "w"))
+                os.replace(tmpf, cpath[name])
         res = dict(results=results, wall_s=round(time.time() - t0, 1), cache_hit=False, kani_version=kv)
         return select(res, hs)
     finally:
         shutil.rmtree(tmp, ignore_errors=True)
+        try:
+            fcntl.flock(lk, fcntl.LOCK_UN)
+            lk.close()
+        except Exception:
+            pass
 
 
 def decode_cex(name, vals):
